@@ -881,6 +881,12 @@ then rcode / RA / records of the internal A sub-response -/
 def basisReply (client : WireReq) (sub : WireReply) : WireReply :=
   { id := client.id, question := client.question, answers := sub.answers }
 
+/-- `ratelimit`: the client half of the COOKIE a reply carries. `onRecord` is
+the cookie the limiter holds for the source ADDRESS (possibly another client's
+behind the same address). Pass or BADCOOKIE alike, the server cookie is minted
+from THIS query's client cookie (`GenerateServerCookie(secret, ip, clientcookie)`). -/
+def rlReplyCookie (client : Option Nat) (_onRecord : Option Nat) : Option Nat := client
+
 /-! ### the failover writer (`middleware/failover` `ResponseWriter.WriteMsg`) -/
 
 /-- a reply as far as the client can tell replies apart: transaction id, rcode, content mark -/
